@@ -17,3 +17,15 @@ pub async fn handshake_outbound(ctx: &ctx::Ctx, me: &validator::SecretKey, genes
 pub fn handshake_bytes(session_id: validator::Signed<node::SessionId>, genesis: validator::GenesisHash) -> Vec<u8> {
     zksync_protobuf::encode(&handshake::Handshake { session_id, genesis })
 }
+
+/// Dials the validator-network endpoint at `addr` as validator `me` and performs the validator handshake.
+pub async fn dial(ctx: &ctx::Ctx, addr: std::net::SocketAddr, me: &validator::SecretKey, genesis: validator::GenesisHash, peer: &validator::PublicKey) -> Result<crate::gossip::verif::Dialed, String> {
+    let mut stream = crate::preface::connect(ctx, addr, crate::preface::Endpoint::ConsensusNet).await.map_err(|e| format!("preface: {e:?}").lines().next().unwrap_or("").to_string())?;
+    handshake::outbound(ctx, me, genesis, &mut stream, peer).await.map_err(|e| format!("handshake: {e}").lines().next().unwrap_or("").to_string())?;
+    Ok(crate::gossip::verif::Dialed(stream))
+}
+
+/// Validator keys currently registered in the node's inbound validator pool (empty if the node is not a validator).
+pub fn inbound_keys(net: &crate::Network) -> Vec<validator::PublicKey> {
+    net.consensus.as_ref().map(|c| c.inbound.current().keys().cloned().collect()).unwrap_or_default()
+}
